@@ -23,6 +23,7 @@ import (
 	acrastruct2 "github.com/cossacklabs/acra/acrastruct"
 	"github.com/cossacklabs/acra/crypto"
 	"github.com/cossacklabs/acra/decryptor/base"
+	encryptor "github.com/cossacklabs/acra/encryptor/base"
 	"github.com/cossacklabs/acra/keystore"
 	"github.com/cossacklabs/acra/logging"
 	"github.com/cossacklabs/themis/gothemis/keys"
@@ -59,6 +60,12 @@ type onColumnCalledCtxKey struct{}
 // first call left in the column's context, verifies the decrypted data against the remembered hash).
 // It returns data itself if hash matched, otherwise the raw column data will be returned.
 func (p *Processor) OnColumn(ctx context.Context, data []byte) (context.Context, []byte, error) {
+	// a column whose encryption setting is known and is not searchable never holds hash ++ envelope: leave it to the
+	// other subscribers (the clear part of a masked value, or any value that starts with the hash function number and
+	// is followed by an envelope, would otherwise be taken for a search hash and fail the verification)
+	if setting, ok := encryptor.EncryptionSettingFromContext(ctx); ok && !setting.IsSearchable() {
+		return ctx, data, nil
+	}
 	if ctx.Value(onColumnCalledCtxKey{}) != nil {
 		// second call for this column: only verify, decrypted data is never searched for a hash again
 		// and nothing is kept for the next column
